@@ -38,3 +38,11 @@ p["assumptions"] += [
     "system level: the Origin VALUE is compared when the delivered response declares Vary: Origin (or *), or the origin stub is known to vary its answer for the echoed URL by Origin"]
 p["domain_restrictions"] = list(p.get("domain_restrictions", [])) + [
     "sysk: GET/HEAD on cache-enabled rules, origin answers 200 with a non-empty body and no validators, entries never expire within a history, at most two overlapped requests (three requests in flight race for one lock and are not deterministic)"]
+
+# C09 on coalesced requests (stream condpair; world and overlap of sysk)
+p = PROPS["C09"]
+p["streams"] += [S("condpair", 400, 6000)]
+p["rule"] += (" | condpair: two clients with independent If-None-Match values (none, matching, weak, list, *, other) coalesced on one fetch of a resource with an ETag "
+              "(r2 is issued while the origin holds r1's answer, deterministic three-phase overlap), then two sequential requests; compared with the handler model "
+              "(the waiter is answered by the writer's validator); oracle: 304 only for a client whose own validator matches")
+p["trusted_base"] += ["condpair: the overlap is produced by the scripted origin and the srv.wait hook, not by timing"]
